@@ -7,8 +7,14 @@ package main
 // the value comes from a Go library call, the error name and message, or a panic).
 
 import (
+	"bufio"
+	"encoding/json"
 	"fmt"
 	"io"
+	"os"
+	"os/exec"
+	"sync/atomic"
+	"syscall"
 	"math"
 	"strconv"
 	"strings"
@@ -200,31 +206,33 @@ func biKinds(args []ugo.Object) string {
 	return strings.Join(ks, ",")
 }
 
-func biCorr(c *Ctx) {
+// biCorrGen produces the cases (request line, implementation answer, class key).
+// before is called with the request line before the implementation is called.
+func biCorrGen(seed uint64, scale int, before func(line string), emit func(line, impl, key string), skipped func()) {
 	fns := biCorrFns()
 	pool := biCorrPool()
 	n := len(pool)
-	r := c.R.Fork()
+	r := gen.NewRand(seed)
 	add := func(f biCorrFn, idx []int, k int, hasVM bool) {
 		args := make([]ugo.Object, len(idx))
 		for i, x := range idx {
 			args[i] = gen.Fresh(pool[x])
 		}
 		if biCorrTooBig(f, args) {
-			c.Count("corr:skipped-size")
+			skipped()
 			return
 		}
 		ids := codec.NewIds()
 		line := biCorrLine(f, args, k, hasVM, ids)
-		// the call may mutate its arguments (append on bytes): render the line first
+		before(line)
+		// the call may mutate its arguments (append on bytes): the line is rendered first
 		impl := biCorrImpl(f, args, k, hasVM, ids)
 		cls := strings.SplitN(impl+" ", " ", 3)
 		key := f.name + "/" + cls[0]
 		if cls[0] == "err" {
 			key += ":" + cls[1]
 		}
-		c.Count("corr:" + cls[0])
-		c.Add(Case{Line: line, Impl: impl, Key: key + "/" + biKinds(args)})
+		emit(line, impl, key+"/"+biKinds(args))
 	}
 	for _, f := range fns {
 		for ar := 0; ar <= f.maxAr; ar++ {
@@ -235,7 +243,7 @@ func biCorr(c *Ctx) {
 			exhaustive := ar <= 2
 			cnt := total
 			if !exhaustive {
-				cnt = 250 * c.Scale
+				cnt = 250 * scale
 			}
 			for t := 0; t < cnt; t++ {
 				idx := make([]int, ar)
@@ -263,6 +271,119 @@ func biCorr(c *Ctx) {
 			}
 		}
 	}
+}
+
+// biCorrWorkerMain: the implementation side of the correspondence runs in a child
+// process too (a defect may allocate without bound or loop).
+func biCorrWorkerMain() {
+	var spec biWorkerSpec
+	if err := json.NewDecoder(os.Stdin).Decode(&spec); err != nil {
+		fmt.Fprintln(os.Stderr, "corr worker: bad spec:", err)
+		os.Exit(2)
+	}
+	if spec.MemLimit > 0 {
+		lim := syscall.Rlimit{Cur: spec.MemLimit, Max: spec.MemLimit}
+		_ = syscall.Setrlimit(syscall.RLIMIT_AS, &lim)
+	}
+	out := bufio.NewWriterSize(os.Stdout, 1<<20)
+	devnull, _ := os.OpenFile(os.DevNull, os.O_WRONLY, 0)
+	os.Stdout = devnull
+	pf, err := os.OpenFile(spec.Progress, os.O_WRONLY|os.O_TRUNC, 0o600)
+	if err != nil {
+		fmt.Fprintln(os.Stderr, "corr worker:", err)
+		os.Exit(2)
+	}
+	var seq atomic.Uint64
+	go biWatchdog(&seq, spec.TimeoutMs)
+	biCorrGen(spec.Seed, spec.Scale,
+		func(line string) {
+			seq.Add(1)
+			pf.WriteAt([]byte(fmt.Sprintf("%08d%s", len(line), line)), 0)
+		},
+		func(line, impl, key string) { out.WriteString(line + "\x1f" + impl + "\x1f" + key + "\n") },
+		func() { out.WriteString("SKIPPED\n") })
+	out.WriteString("DONE\n")
+	out.Flush()
+	os.Exit(0)
+}
+
+func biCorr(c *Ctx) {
+	exe, err := os.Executable()
+	if err != nil {
+		c.Violation(PropViolation{"C19", "cannot start the correspondence worker: " + err.Error(), "", "C19:harness"})
+		return
+	}
+	pf, err := os.CreateTemp("", "corr-bi-corr-*")
+	if err != nil {
+		c.Violation(PropViolation{"C19", "cannot start the correspondence worker: " + err.Error(), "", "C19:harness"})
+		return
+	}
+	pf.Close()
+	defer os.Remove(pf.Name())
+	timeout := 2500
+	if c.Tier == "thorough" {
+		timeout = 6000
+	}
+	spec := biWorkerSpec{Seed: c.R.U64(), Scale: c.Scale, Progress: pf.Name(), TimeoutMs: timeout, MemLimit: 6 << 30}
+	cmd := exec.Command(exe)
+	cmd.Env = append(os.Environ(), "CORR_BI_WORKER=corr", "GOMEMLIMIT=4GiB")
+	in, _ := json.Marshal(spec)
+	cmd.Stdin = strings.NewReader(string(in))
+	var stderr strings.Builder
+	cmd.Stderr = &stderr
+	so, _ := cmd.StdoutPipe()
+	if err := cmd.Start(); err != nil {
+		c.Violation(PropViolation{"C19", "cannot start the correspondence worker: " + err.Error(), "", "C19:harness"})
+		return
+	}
+	done := false
+	sc := bufio.NewScanner(so)
+	sc.Buffer(make([]byte, 1<<20), 1<<28)
+	for sc.Scan() {
+		l := sc.Text()
+		switch {
+		case l == "DONE":
+			done = true
+		case l == "SKIPPED":
+			c.Count("corr:skipped-size")
+		default:
+			f := strings.Split(l, "\x1f")
+			if len(f) != 3 {
+				continue
+			}
+			c.Count("corr:" + strings.SplitN(f[1]+" ", " ", 2)[0])
+			c.Add(Case{Line: f[0], Impl: f[1], Key: f[2]})
+		}
+	}
+	werr := cmd.Wait()
+	if werr == nil && done {
+		return
+	}
+	// the worker died inside a call: the progress file holds its request line
+	last := ""
+	if b, err := os.ReadFile(pf.Name()); err == nil && len(b) >= 8 {
+		if n, err := strconv.Atoi(string(b[:8])); err == nil && 8+n <= len(b) {
+			last = string(b[8 : 8+n])
+		}
+	}
+	se := stderr.String()
+	msg := firstLine(se, "fatal error", "WATCHDOG", "panic:", "runtime:")
+	fn := "?"
+	if f := strings.Split(last, "\t"); len(f) > 1 {
+		fn = f[1]
+		for _, x := range biCorrFns() {
+			if x.name == fn {
+				fn = x.base
+			}
+		}
+	}
+	class := "crash"
+	if strings.Contains(se, "WATCHDOG") {
+		class = "runaway"
+	} else if biPanicClass(msg) == "count*len>limit" {
+		class = "count*len>limit"
+	}
+	c.Violation(PropViolation{"C19", "the implementation died (" + msg + ") in a call of the correspondence stream", last, "C19:" + fn + ":" + class})
 }
 
 func biReplay(line string) (string, error) {
